@@ -995,6 +995,17 @@ func (env *SpecEnv) call(n *ast.CallExpr) sv {
 			}
 			return sv{V: t, T: types.Typ[types.Int]}
 		}
+	case "trimmed":
+		// trimmed(s): strings.TrimSpace(s), the same window the engine uses for the call
+		v := arg(0)
+		s0, ok := v.V.(*StringVal)
+		if !ok {
+			env.fail("trimmed of %T", v.V)
+		}
+		if cs, isC := concreteString(s0); isC {
+			return sv{V: e.strConst(strings.TrimSpace(cs)), T: types.Typ[types.String]}
+		}
+		return sv{V: e.trimSpace(env.st, s0), T: types.Typ[types.String]}
 	case "inmap":
 		// inmap(Table, k): k is a key of the package-level map Table (same predicate the engine uses for lookups)
 		id, ok := n.Args[0].(*ast.Ident)
